@@ -60,7 +60,13 @@ func TestVerifC15(t *testing.T) {
 				}
 				vrt.SetOrderChooser(nil)
 				for i, s := range subs {
-					got := len(publishesOf(s.cl.take()))
+					pubs := publishesOf(s.cl.take())
+					got := len(pubs)
+					for _, p := range pubs {
+						if p.TopicName != "t" || string(p.Payload) != "hello" || int(p.Qos) != mq {
+							c.Failf("delivered-message-altered", "message on t at QoS %d payload hello: client c%d received topic %q payload %q QoS %d packet id %d", mq, i, p.TopicName, p.Payload, p.Qos, p.MessageID)
+						}
+					}
 					eligible := s.filter != "x" && int(s.qos) >= mq
 					c.Note("c%d eligible=%v received=%d", i, eligible, got)
 					switch {
@@ -117,6 +123,11 @@ func TestVerifC15(t *testing.T) {
 					}
 					seenOldest := false
 					for _, p := range got {
+						for _, o := range first {
+							if o.MessageID == p.MessageID && (o.TopicName != p.TopicName || string(o.Payload) != string(p.Payload) || p.Qos != 1) {
+								c.Failf("retransmission-differs-from-original", "period %d: packet id %d first sent as topic %q payload %q, retransmitted as topic %q payload %q QoS %d", period, p.MessageID, o.TopicName, o.Payload, p.TopicName, p.Payload, p.Qos)
+							}
+						}
 						if acked[p.MessageID] {
 							c.Failf("retransmitted-after-puback", "period %d: packet id %d retransmitted after its PUBACK (acked %v)", period, p.MessageID, acked)
 						}
@@ -158,21 +169,37 @@ func TestVerifC15(t *testing.T) {
 			slow.send(p)
 			synctest.Wait()
 			slow.subscribe("t", 0)
-			// from now on "slow" stops reading: replace its reader by nothing (close is not called)
 			ok := vb.connect("ok", true)
 			ok.subscribe("t", 0)
 			ok.take()
 			n := []int{10, 60, 120}[c.Choose(3, "burst")]
-			slowConn := slow.conn
-			_ = slowConn
-			// stop the slow client's reader by swapping in a pipe end nobody reads is not possible; instead
-			// measure the healthy client only and require that nothing stalls.
+			// from now on "slow" stops reading its connection
+			slow.stopReading()
+			slow.take()
+			vb.b.RLock()
+			qcap := cap(vb.b.clients["slow"].writeCh)
+			vb.b.RUnlock()
 			for i := 0; i < n; i++ {
-				vb.httpPublish("t", 0, "b")
+				vb.httpPublish("t", 0, fmt.Sprintf("b%d", i))
 			}
 			got := len(publishesOf(ok.take()))
 			if got != n {
-				c.Failf("qos0-lost-for-healthy-client", "burst of %d QoS0 messages: healthy reading client received %d", n, got)
+				c.Failf("qos0-lost-for-healthy-client", "burst of %d QoS0 messages while another subscriber does not read: healthy reading client received %d", n, got)
+			}
+			// a QoS0 copy may be dropped only when the client's outbound queue is full: what fits the queue arrives, in order
+			slow.resumeReading()
+			var payloads []string
+			for _, p := range publishesOf(slow.take()) {
+				payloads = append(payloads, string(p.Payload))
+			}
+			keep := n
+			if qcap < keep {
+				keep = qcap
+			}
+			for i := 0; i < keep; i++ {
+				if i >= len(payloads) || payloads[i] != fmt.Sprintf("b%d", i) {
+					c.Failf("qos0-dropped-although-queue-not-full", "burst of %d QoS0 messages to a client that reads late (queue capacity %d): expected the first %d in order, received %d: %v", n, qcap, keep, len(payloads), payloads)
+				}
 			}
 			c.Outcome(fmt.Sprintf("burst%d", n))
 		}
